@@ -44,6 +44,12 @@ func main() {
 	for _, n := range names {
 		fmt.Fprintf(&b, "\t%q: func() any { return new(vc.%s) },\n", n, utils.ExportedIdentifier(n))
 	}
+	b.WriteString("}\n\nvar NewPU = map[string]func() any{\n")
+	for _, n := range names {
+		if env.Find(n).Kind == "record" {
+			fmt.Fprintf(&b, "\t%q: func() any { return new(vc.%s_PartialUpdate) },\n", n, utils.ExportedIdentifier(n))
+		}
+	}
 	b.WriteString("}\n\nvar Defaults = map[string]func() any{\n")
 	for _, n := range names {
 		d := env.Find(n)
